@@ -125,7 +125,7 @@ Record GInv (gr : Z) (t : tlsf) : Prop := mkGInv {
   gi_t : TInv t;
   gi_h : g_h (t_gran t) = HVam;
   gi_g : g_g (t_gran t) = gr;
-  gi_range : 1 <= gr <= 65536;
+  gi_range : 1 <= gr <= 4294967296;   (* the page counters are uint32 *)
   gi_kind : Forall (fun s => kind_ok (s_kind s)) (spans t);
   gi_round : Forall (round_ok gr) (spans t);
   gi_len : length (g_regions (t_gran t)) =
@@ -151,7 +151,7 @@ Proof.
   split; [exact Hmod|]. destruct (Z.ltb_spec align0 (g_g g)); split; auto; lia.
 Qed.
 
-Lemma init_GInv gr size : cfg_ok gr size -> 1 <= gr <= 65536 -> GInv gr (tlsf_init HVam gr size).
+Lemma init_GInv_wide gr size : cfg_ok gr size -> 1 <= gr <= 4294967296 -> GInv gr (tlsf_init HVam gr size).
 Proof.
   intros Hc Hr. constructor; auto.
   - apply init_TInv; auto.
@@ -164,6 +164,9 @@ Proof.
     + reflexivity.
   - intros _. apply table_ok_init.
 Qed.
+
+Lemma init_GInv gr size : cfg_ok gr size -> 1 <= gr <= 65536 -> GInv gr (tlsf_init HVam gr size).
+Proof. intros Hc Hr. apply init_GInv_wide; auto. lia. Qed.
 
 Lemma set_user_data_gran t h tag t' : set_user_data t h tag = Some t' -> t_gran t' = t_gran t.
 Proof.
@@ -283,10 +286,16 @@ Proof.
   inversion Hok; subst. inversion Hk; subst. apply IH; auto. apply step_preserves_G; auto.
 Qed.
 
+Theorem reach_GInv_wide gr size ops :
+  cfg_ok gr size -> 1 <= gr <= 4294967296 -> Forall op_ok ops -> Forall op_kind_ok ops ->
+  GInv gr (run (tlsf_init HVam gr size) ops).
+Proof. intros. apply run_GInv; auto. apply init_GInv_wide; auto. Qed.
+
+(* the range of granularities of the property (1 .. 64 KiB) *)
 Theorem reach_GInv gr size ops :
   cfg_ok gr size -> 1 <= gr <= 65536 -> Forall op_ok ops -> Forall op_kind_ok ops ->
   GInv gr (run (tlsf_init HVam gr size) ops).
-Proof. intros. apply run_GInv; auto. apply init_GInv; auto. Qed.
+Proof. intros Hc Hr. apply reach_GInv_wide; auto. lia. Qed.
 
 (* ------------------------------------------------------------------ consequences *)
 
@@ -454,7 +463,7 @@ Proof.
 Qed.
 
 Theorem tlsf_high_gran gr t :
-  GInv gr t -> 256 < gr <= 65536 ->
+  GInv gr t -> 256 < gr ->
   forall a b, In a (live t) -> In b (live t) -> a <> b ->
     conflict (b_kind a) (b_kind b) = true -> no_shared_page gr a b.
 Proof.
@@ -470,7 +479,7 @@ Proof.
   destruct (tlsf_page_table_sound gr t a b x y HG Hen Ha Hb Hne Hx Hy E) as (H1 & _). congruence.
 Qed.
 
-(* ---- every granularity 1 .. 65536 *)
+(* ---- every granularity 1 .. 2^32 (gi_range) *)
 Theorem tlsf_gran_sound gr t :
   GInv gr t ->
   forall a b, In a (live t) -> In b (live t) -> a <> b ->
